@@ -104,7 +104,15 @@ struct Functor {
 };
 
 // ---- Runnable with tracked run / destructor
-struct TrackedRunnable : tulz::Runnable {
+// Runnable is NOT the first base: a `TrackedRunnable*` and the `Runnable*` of the same object differ, so a pointer that travels
+// as `void*` without the derived-to-base adjustment dispatches through the wrong vtable
+struct Describable {
+    long pad = 7;
+    virtual void describe() { dead("DEAD-RUNNABLE a virtual function of another base was called instead of Runnable::run()"); }
+    virtual ~Describable() = default;
+};
+
+struct TrackedRunnable : Describable, tulz::Runnable {
     uint64_t magic = MAGIC;
     static int live, destroyed;
     TrackedRunnable() { live++; }
